@@ -235,6 +235,17 @@ inline std::string argv_line;
 }
 inline void violation_cb(const char* key, const std::string& detail) { violation(key, detail); }
 
+// foreign / double unlocks and mutexes destroyed while held, recorded by the shim's shadow lock state
+inline void check_shadow()
+{
+    std::unique_lock<std::mutex> l(rt.err_mu);
+    if (!rt.shadow_errors.empty()) {
+        std::string d = jarr(rt.shadow_errors.begin(), rt.shadow_errors.end(), [](const std::string& s) { return jstr(s); });
+        l.unlock();
+        violation("oracle:shadow_lock_state", d);
+    }
+}
+
 [[noreturn]] inline void finish()
 {
     {
